@@ -41,6 +41,8 @@ class EntryTracer:
 
     def __init__(self, mode, n=None, func=None, k=None, exc=None):
         self.exc = InjectedInterrupt if exc == 'base' else InjectedFault
+        self.cleanup = lib.cleanup_lines()
+        self.skipped = 0
         self.prefix = lib.lib_prefix()
         self.plen = len(self.prefix)
         self.mode = mode
@@ -67,6 +69,10 @@ class EntryTracer:
             self.counts[key] = self.counts.get(key, 0) + 1
         elif mode == 'nth':
             if self.total == self.n and not self.fired:
+                if not self.eligible(frame):
+                    self.n += 1          # deliver at the next eligible entry instead
+                    self.skipped += 1
+                    return None
                 self.fired = True
                 self.where = (fn[self.plen:], code.co_qualname)
                 raise self.exc('injected at entry %d: %s:%s' % (self.total, self.where[0], self.where[1]))
@@ -74,10 +80,38 @@ class EntryTracer:
             if (fn[self.plen:], code.co_qualname) == self.func:
                 self.seen += 1
                 if self.seen == self.k and not self.fired:
+                    if not self.eligible(frame):
+                        self.k += 1
+                        self.skipped += 1
+                        return None
                     self.fired = True
                     self.where = self.func
                     raise self.exc('injected at entry %d of %s:%s' % (self.k, self.func[0], self.func[1]))
         return None
+
+
+def _eligible(self, frame):
+    """F5 is delivered only at fresh entries of ordinary functions, and never while
+    any library frame on the stack is inside a `finally:` body or an `except` handler
+    (or while a generator-based / class-based context manager is being left)."""
+    code = frame.f_code
+    if code.co_flags & 0x2A0:      # CO_GENERATOR | CO_COROUTINE | CO_ASYNC_GENERATOR
+        return False
+    if code.co_name in ('__exit__', '__aexit__', '__del__', '__enter__'):
+        return False
+    f = frame.f_back
+    prefix, plen, cleanup = self.prefix, self.plen, self.cleanup
+    while f is not None:
+        fn = f.f_code.co_filename
+        if fn.startswith(prefix):
+            lines = cleanup.get(fn[plen:])
+            if lines and f.f_lineno in lines:
+                return False
+        f = f.f_back
+    return True
+
+
+EntryTracer.eligible = _eligible
 
 
 def frame_depth():
